@@ -306,8 +306,16 @@ fn one(module: &Module<BE>, op: &'static str, n: usize, rng: &mut Rng, rep: &mut
             if bits_a < 2 {
                 return;
             }
-            let mut a = VBuf::new(n, cin, asz, asz);
+            // vmp_apply_dft right-aligns the columns of `a` into the cols_in inputs of the matrix (missing leading columns count as zero,
+            // surplus leading columns are ignored); the DFT-to-DFT form requires equal column counts
+            let a_cols = if op == "vmp_apply_dft" { rng.usize_in(1, cin + 1) } else { cin };
+            let mut a = VBuf::new(n, a_cols, asz, asz);
             fill_class(&mut a, rng, bits_a, class_a);
+            let a_col_of = |ci: usize| -> Option<usize> {
+                let copy = a_cols.min(cin);
+                let (start, offset) = (a_cols - copy, cin - copy);
+                if ci < offset { None } else { Some(start + ci - offset) }
+            };
             // MatZnx: rows x cols_in entries, each a VecZnx with cols_out columns and msz limbs
             let mat_bytes = MatZnx::<Vec<u8>>::bytes_of(n, rows, cin, cout, msz);
             let mut mat_g = Guarded::new(mat_bytes, true);
@@ -326,11 +334,12 @@ fn one(module: &Module<BE>, op: &'static str, n: usize, rng: &mut Rng, rep: &mut
             desc.put("cols_out", cout);
             desc.put("mat_size", msz);
             desc.put("a_size", asz);
+            desc.put("a_cols", a_cols);
             desc.put("res_size", rsz);
             desc.put("limb_offset", limb_offset);
             desc.put("bits_a", bits_a);
             desc.put("bits_mat", bits_m);
-            let key = format!("{BE_NAME}|{n}|{rows}|{cin}|{cout}|{msz}|{asz}|{rsz}|{limb_offset}|{class_a}|{class_b}");
+            let key = format!("{BE_NAME}|{n}|{rows}|{cin}|{cout}|{msz}|{asz}|{a_cols}|{rsz}|{limb_offset}|{class_a}|{class_b}");
             rep.case(op, &key, nontrivial);
             rep.sample_for_op(&format!("{BE_NAME}:{op}"), || desc.clone());
             let mut res = DftBuf::new(n, cout, rsz, rsz + rng.usize_in(0, 1));
@@ -370,7 +379,9 @@ fn one(module: &Module<BE>, op: &'static str, n: usize, rng: &mut Rng, rep: &mut
                     if ml < msz {
                         for i in 0..rows.min(asz) {
                             for ci in 0..cin {
-                                acc.add_mul(a.poly(ci, i), mats[i][ci].poly(co, ml));
+                                if let Some(ac) = a_col_of(ci) {
+                                    acc.add_mul(a.poly(ac, i), mats[i][ci].poly(co, ml));
+                                }
                             }
                         }
                     }
